@@ -380,7 +380,7 @@ def generate():
     v += "Definition fmt_unary_strength : N := %d.\nDefinition fmt_range_strength : N := %d.\nDefinition fmt_call_strength : N := %d.\n" % (ks["Unary"], ks["Range"], ks["FuncCall"])
     v += "Definition fmt_func_strength : N := %d.\nDefinition fmt_ident_strength : N := %d.\nDefinition fmt_other_strength : N := %d.\n" % (ks["Func"], ks["Ident"], ks["_"])
     v += "Definition fmt_can_bind_left : list bool := %s.\n\n" % lst("true" if x else "false" for x in info["cbl"])
-    v += "(* write_ident_part: keywords() and valid_prql_ident = ^(?:\\*|[start][rest]*)$ ; display_ident_part classes *)\n"
+    v += "(* write_ident_part: keywords() and valid_prql_ident = star or [start][rest]...; display_ident_part classes *)\n"
     v += "Definition fmt_keywords : list (list N) :=\n  %s.\n" % lst("%s (* %s *)" % (codes(k), k) for k in info["fmt_keywords"])
     v += "Definition fmt_ident_start : list (N * N) := %s.\nDefinition fmt_ident_rest : list (N * N) := %s.\n" % (ranges(info["fmt_ident_start"]), ranges(info["fmt_ident_rest"]))
     v += "Definition disp_ident_start : list (N * N) := %s.\nDefinition disp_ident_rest : list (N * N) := %s.\n\n" % (ranges(info["disp_ident_start"]), ranges(info["disp_ident_rest"]))
